@@ -3,11 +3,10 @@
    verdict that is a tree or a failure with a position inside the text — never Err — given
    enough fuel. That python-pest's hand-written front end returns a Parser or raises a
    renderable PestGrammarError on the same strings is decided differentially on every run
-   (token soups, truncations and mutations of valid grammars, edge texts). The bound on the
-   fuel (termination of the meta-grammar on every input) is not proved: C11_full. *)
+   (token soups, truncations and mutations of valid grammars, edge texts). *)
 From Coq Require Import List NArith ZArith.
 Import ListNotations.
-From PP Require Import Base Syntax Spec SpecSyn SpecMono SpecNoErr SpecWf Grammars.
+From PP Require Import Base Syntax Spec SpecSyn SpecMono SpecNoErr SpecWf SpecTerm SpecCert Grammars.
 
 Theorem C11_never_abnormal : forall f text,
   parse meta_grammar f meta_grammar_start text 0 <> Err.
@@ -26,8 +25,24 @@ Proof.
   rewrite H in S. exact (proj1 S).
 Qed.
 
-Definition C11_full : Prop :=
-  forall text, exists f, parse meta_grammar f meta_grammar_start text 0 <> Fuel.
+(* pest's meta-grammar passes the termination validator (no left recursion, no repetition over
+   a possibly empty body), so the reader terminates on EVERY string ... *)
+Theorem C11_reader_terminates : forall text,
+  exists f, parse meta_grammar f meta_grammar_start text 0 <> Fuel.
+Proof. intros text. apply wf_auto_terminates. vm_compute. reflexivity. Qed.
+
+(* ... with a verdict that is a tree or a rejection with a position inside the text *)
+Theorem C11_reader_total : forall text,
+  exists f, (exists s t, parse meta_grammar f meta_grammar_start text 0 = Ok s t) \/
+            (exists t, parse meta_grammar f meta_grammar_start text 0 = Fail t /\
+                       (t_pos t = (-1)%Z \/ (0 <= t_pos t <= Z.of_nat (length text))%Z)).
+Proof.
+  intros text. destruct (C11_reader_terminates text) as [f Hf]. exists f.
+  pose proof (C11_never_abnormal f text) as E.
+  destruct (parse meta_grammar f meta_grammar_start text 0) as [s t|t| |] eqn:P;
+    [left; eexists; eexists; reflexivity| |congruence|congruence].
+  right. exists t. split; [reflexivity|]. eapply C11_error_position_in_text. exact P.
+Qed.
 
 (* non-vacuity: the empty text and a comment-only text are valid grammars *)
 Example empty_grammar : exists s, parse meta_grammar 100 meta_grammar_start [] 0 = Ok s [Pair EOI_ID 0 0 [] None].
@@ -35,3 +50,5 @@ Proof. eexists. vm_compute. reflexivity. Qed.
 
 Print Assumptions C11_never_abnormal.
 Print Assumptions C11_error_position_in_text.
+Print Assumptions C11_reader_terminates.
+Print Assumptions C11_reader_total.
